@@ -82,6 +82,27 @@ var repoKinds = []string{"memory", "filesystem", "sql"}
 
 var sqlSeq int
 
+// secondHandle opens another repository object on the store behind repo (the
+// same directory / the same database); nil for kinds that keep their data in
+// the object itself.
+func secondHandle(kind string, repo asset.Repository) asset.Repository {
+	switch kind {
+	case "filesystem", "factory-filesystem":
+		if base := reflectBase(repo); base != "" {
+			return asset.NewFileSystemRepository(base)
+		}
+	case "sql":
+		if sqlLastDSN != "" {
+			if r, err := asset.NewSQLRepository(fakesql.DriverName, sqlLastDSN, fakesql.Dialect{}); err == nil {
+				return r
+			}
+		}
+	}
+	return nil
+}
+
+var sqlLastDSN string
+
 func newRepo(kind string) (asset.Repository, func(), error) {
 	switch kind {
 	case "factory-memory":
@@ -105,6 +126,7 @@ func newRepo(kind string) (asset.Repository, func(), error) {
 	case "sql":
 		sqlSeq++
 		dsn := fmt.Sprintf("c10-%d-%d", os.Getpid(), sqlSeq)
+		sqlLastDSN = dsn
 		r, err := asset.NewSQLRepository(fakesql.DriverName, dsn, fakesql.Dialect{})
 		if err != nil {
 			return nil, nil, err
@@ -136,6 +158,17 @@ func c10History(cc *run.Case, kind string, nops, hidx int) bool {
 		return false
 	}
 	defer cleanup()
+	// A persistent repository keeps its data in the store, not in the object:
+	// in a third of the histories every operation goes through one of TWO
+	// objects opened on the same store, chosen at random.
+	first := repo
+	var second asset.Repository
+	if hidx%3 == 1 {
+		second = secondHandle(kind, repo)
+		if c, ok := second.(interface{ Close() error }); ok {
+			defer c.Close()
+		}
+	}
 	model := newRepoModel()
 	// names incl. ones that end in the letters of the ".csv" suffix and contain dots
 	pool := []string{"aapl", "brk-b", "x", "goog", "vics", "cvs", "msft.v", "s", "abc.csv"}
@@ -165,6 +198,9 @@ func c10History(cc *run.Case, kind string, nops, hidx int) bool {
 	}
 	appends, reads := 0, 0
 	for step := 0; step < nops; step++ {
+		if second != nil {
+			repo = []asset.Repository{first, second}[r.Intn(2)]
+		}
 		name := names[r.Intn(len(names))]
 		if r.Intn(12) == 0 {
 			name = "never-appended"
@@ -334,6 +370,11 @@ func c10History(cc *run.Case, kind string, nops, hidx int) bool {
 					return fail(fmt.Sprintf("Assets() = %v does not list %q, which holds %d snapshots", got, n, len(l)))
 				}
 			}
+			// the returned list belongs to the caller: writing to it must not reach the repository
+			for i := range got {
+				got[i] = "scribbled-over"
+			}
+			_ = append(got[:0], "ghost", "ghost2", "ghost3", "ghost4")
 		}
 	}
 	cc.Count("ops:"+kind, int64(len(hist)))
